@@ -94,7 +94,7 @@ def run(ctx):
         objs = [{'v': rnd.choice(few if rnd.random() < 0.6 else UNIVERSE), 'i': j} for j in range(rnd.choice([0, 2, 5, 12, 33, 40]))]
         c = mkcase('B%d' % i, lib.new_cfg(select=['(sort_by . .v)=s']), gen.jdump(objs)); cases.append(c); meta[c['id']] = ('sort_by', objs)
         # objects: members sorted by value / by a key of the value / by name; ties keep their arrival order (member names arrive unsorted)
-        names = rnd.sample(['zeta', 'alpha', 'mid', 'b', 'a', 'é', 'Z', 'k10', 'k2', '', 'beta', 'Alpha'], rnd.choice([0, 2, 5, 9, 12]))
+        names = rnd.sample(['zeta', 'alpha', 'mid', 'b', 'a', 'é', 'Z', 'k10', 'k2', '', 'beta', 'Alpha', '\uffff', '\U0001F600', '\ue000', '\ud7ff', '\U00010000x', '\ufffdz'], rnd.choice([0, 2, 5, 9, 12]))
         few2 = rnd.sample(UNIVERSE, 3)
         obj = {nm: rnd.choice(few2 if rnd.random() < 0.7 else UNIVERSE) for nm in names}
         c = mkcase('OV%d' % i, lib.new_cfg(select=['(sort_by_values .)=s'], json_opts=('consise', True)), gen.jdump(obj)); cases.append(c); meta[c['id']] = ('obj_values', obj)
